@@ -262,6 +262,16 @@ fn main() {
                     sig.output = ReturnType::Default;
                     fired.push(format!("R16-prologue-until-{}", until));
                 }
+                if item.get("drop_tail").and_then(|x| x.as_bool()).unwrap_or(false) {
+                    // R16: the tail expression (the returned stream / future) is not part of the prologue
+                    if let Some(Stmt::Expr(_, None)) = block.stmts.last() {
+                        block.stmts.pop();
+                        sig.output = ReturnType::Default;
+                        fired.push("R16-prologue-without-tail".into());
+                    } else {
+                        fail("anchor-lost", format!("{}: fn {} has no tail expression", name, sig.ident));
+                    }
+                }
                 let marker_name = s(item, "marker_name").unwrap_or_else(|| sig.ident.to_string());
                 let contract_only = item.get("contract_only").and_then(|x| x.as_bool()).unwrap_or(false);
                 if contract_only {
